@@ -492,9 +492,9 @@ func (p *Prog) ValueDesc(v ssa.Value) string {
 	v = Strip(v)
 	switch x := v.(type) {
 	case *ssa.Parameter:
-		return "param:" + x.Name()
+		return "param:" + LogicalName(x)
 	case *ssa.FreeVar:
-		return "free:" + x.Name()
+		return "free:" + LogicalName(x)
 	case *ssa.UnOp:
 		if x.Op == token.MUL {
 			if fa, ok := x.X.(*ssa.FieldAddr); ok {
@@ -504,7 +504,7 @@ func (p *Prog) ValueDesc(v ssa.Value) string {
 				return "global:" + Short(g.Pkg.Pkg.Path()) + "." + g.Name()
 			}
 			if fv, ok := x.X.(*ssa.FreeVar); ok {
-				return "free:" + fv.Name()
+				return "free:" + LogicalName(fv)
 			}
 			if a, ok := x.X.(*ssa.Alloc); ok {
 				return "local:" + a.Comment
